@@ -14,7 +14,7 @@ use serde_json::{json, Value};
 
 const POSITION: &[&str] = &["middle", "only", "first", "last"];
 const TRAILING: &[&str] = &["LF", "SP", "none-after-last", "CRLF"];
-const FILTER: &[&str] = &["none", "flate", "hex", "a85+flate", "lzw"];
+const FILTER: &[&str] = &["none", "flate", "hex", "a85+flate", "lzw", "hex+flate-with-predictor(parms [null <<..>>])"];
 const PAD: &[&str] = &["first-at-header-end", "first-beyond-header", "first-member-directly-after-the-last-offset"];
 const NEIGH: &[&str] = &["dict", "int", "real", "str", "name", "bool", "null", "ref", "arr"];
 const XREF: &[&str] = &["one-section", "objstm-added-by-update"];
@@ -94,7 +94,7 @@ pub fn twin_case(ch: &mut Chooser, t: &mut Tally) {
         raw2.push((*n, b));
     }
     let opts = ObjStmOpts {
-        filter: [ObjStmFilter::None, ObjStmFilter::Flate, ObjStmFilter::Hex, ObjStmFilter::A85Flate, ObjStmFilter::Lzw][filter],
+        filter: [ObjStmFilter::None, ObjStmFilter::Flate, ObjStmFilter::Hex, ObjStmFilter::A85Flate, ObjStmFilter::Lzw, ObjStmFilter::HexFlatePredictor][filter],
         trailing: b"",
         first_pad: match pad {
             1 => 3,
@@ -355,7 +355,7 @@ pub fn run(tier: Tier, _seed: u64, tally: &mut Tally) -> CheckMeta {
     CheckMeta {
         prop: "C11",
         level: "model_checking",
-        rule: format!("full product of {} values (C03 catalogue: every kind, all kind pairs, depth 20) x position in the object stream {{middle, only, first, last}} x trailing white-space {{LF, SP, none after the last member, CRLF}}, with <= {} deviations among object-stream filter {{flate, hex, a85+flate, lzw}}, /First beyond the header or directly after the last offset (no separator, first member beginning with a delimiter), neighbour kinds before/after (8 alternatives each), object stream added by an incremental update, the document encrypted {{RC4-128, AES-128, AES-256}} (strings of the ordinary twin encrypted one by one, those of the compressed twin only as part of the object stream); each document holds the value as direct object 4 and compressed object 5 and both are resolved and compared with the producer's value. Streams: full product of /Length form {{direct, reference to a direct integer before/after the stream, reference to a compressed integer (plain / flate object stream)}} x data x EOL. Twins in a document that is being modified: {{cached, uncached}} x {{typed, raw, no}} read before the update x 3 new values x which twin: the twin is replaced through Updater::update and read again (typed and raw): the new value, whichever way the old one was stored. Distinct by file hash.", c03::catalogue().vals.len(), bound),
+        rule: format!("full product of {} values (C03 catalogue: every kind, all kind pairs, depth 20) x position in the object stream {{middle, only, first, last}} x trailing white-space {{LF, SP, none after the last member, CRLF}}, with <= {} deviations among object-stream filter {{flate, hex, a85+flate, lzw, hex+flate with a predictor and /DecodeParms [null <<..>>]}}, /First beyond the header or directly after the last offset (no separator, first member beginning with a delimiter), neighbour kinds before/after (8 alternatives each), object stream added by an incremental update, the document encrypted {{RC4-128, AES-128, AES-256}} (strings of the ordinary twin encrypted one by one, those of the compressed twin only as part of the object stream); each document holds the value as direct object 4 and compressed object 5 and both are resolved and compared with the producer's value. Streams: full product of /Length form {{direct, reference to a direct integer before/after the stream, reference to a compressed integer (plain / flate object stream)}} x data x EOL. Twins in a document that is being modified: {{cached, uncached}} x {{typed, raw, no}} read before the update x 3 new values x which twin: the twin is replaced through Updater::update and read again (typed and raw): the new value, whichever way the old one was stored. Distinct by file hash.", c03::catalogue().vals.len(), bound),
         assumptions: vec!["members of an object stream are separated by white-space except after the last one".into()],
         exhaustive: true,
         bounds: json!({"deviations": bound}),
